@@ -218,8 +218,11 @@ func (e *Engine) isMatchBoundedBacktracker(haystack []byte) bool {
 		if !e.asciiBoundedBacktracker.CanHandle(len(haystack)) {
 			return e.pvIsMatch(haystack)
 		}
-		// Use ASCII backtracker directly (no pooled state needed - it's independent)
-		return e.asciiBoundedBacktracker.IsMatch(haystack)
+		// Pooled state: the backtracker's own internal state is one visited table
+		// for all goroutines
+		asciiState := e.getSearchState()
+		defer e.putSearchState(asciiState)
+		return e.asciiBoundedBacktracker.IsMatchWithState(haystack, asciiState.backtracker)
 	}
 
 	if !e.boundedBacktracker.CanHandle(len(haystack)) {
